@@ -24,11 +24,12 @@ def generate(rng, tier):
     seekable = stream_cfgs_for(lambda k: k != "ofb")
     n = 200 if tier == "quick" else 5000
     for i in range(n):
-        bs, w, dm, kind = seekable[i % len(seekable)] if i < 2 * len(seekable) else rng.choice(seekable)
+        bs, w, dm, kind = pick_stream(rng, i // 4 * 4 + (i % 4) * 0 + i // 4, lambda k: k != "ofb") if False else pick_stream(rng, i // 4, lambda k: k != "ofb")
         cbits = 128 if kind == "belt" else ctr_params(kind)[0]
         nblocks_total = 2 ** cbits - 1
         end_pos = nblocks_total * bs
-        key, iv = rbytes_n(rng, 8), boundary_iv(rng, bs, kind)
+        key = rbytes_n(rng, 8)
+        iv = stream_iv(rng, bs, kind, key, dm)
         tc = oracle.Toy(key, dm)
         c = Case("c11_%d" % i, "stream", bs, w, dm, tags=dict(kind=kind))
         back = rng.choice([0, 1, 2, w, w + 1, 2 * w + 1])
